@@ -414,7 +414,7 @@ def run_schedule(lk, args, prefix, nthreads=None, hot=None):
                 raise RuntimeError(f"schedule replay diverged at step {step}: choice {c} of {len(order)} enabled")
         else:
             c = 0
-        points.append((len(order), still, pre))
+        points.append((len(order), still, pre, sum(1 for q in choices if q)))
         choices.append(c)
         t = order[c]
         if still and t != running:
@@ -440,8 +440,11 @@ def canon_result(res):
     return tuple(np.float64(v).tobytes() for v in res)
 
 
-def explore(lk, args, bound, nthreads=None, max_exec=2_000_000, stop_on_diff=False):
-    """Iterative-preemption-bounded DFS. bound=None: unbounded. Returns dict of statistics."""
+def explore(lk, args, bound, nthreads=None, max_exec=2_000_000, stop_on_diff=False, count="preemptions"):
+    """Bounded DFS over schedules. bound=None: unbounded.
+    count="preemptions": a switch away from a thread that could continue costs 1, the choice of the next thread after a
+    thread has finished is free (classic context bounding; the number of free orderings grows like K!).
+    count="deviations": every departure from the default choice (keep running / lowest id) costs 1 - use for many threads."""
     # pass 0: in-order execution in record mode -> hot arrays, races, reference outcome
     ex0 = run_schedule(lk, args, [], nthreads, hot=None)
     writers, touchers = {}, {}
@@ -480,9 +483,9 @@ def explore(lk, args, bound, nthreads=None, max_exec=2_000_000, stop_on_diff=Fal
             capped = True
             break
         for i in range(len(prefix), len(x.points)):
-            nen, still, pre = x.points[i]
+            nen, still, pre, dev = x.points[i]
             for alt in range(1, nen):
-                cost = pre + (1 if still else 0)
+                cost = (pre + (1 if still else 0)) if count == "preemptions" else dev + 1
                 if bound is not None and cost > bound:
                     continue
                 stack.append(x.choices[:i] + [alt])
